@@ -62,7 +62,7 @@ impl Maps {
             }
         }
         assert_eq!(pad.len(), 18432, "pad map must cover the detector");
-        let rd = |p: &str| std::fs::read(format!("/repo/physics/data/simulation/{p}")).expect("simulation data file");
+        let rd = |p: &str| std::fs::read(format!("{}/physics/data/simulation/{p}", crate::core::repo_dir())).expect("simulation data file");
         let w: Vec<f64> = serde_json::from_slice(&rd("tpc_response/wires.json")).unwrap();
         let p: Vec<f64> = serde_json::from_slice(&rd("tpc_response/pads.json")).unwrap();
         let drift = serde_json::from_slice(&rd("drift_table/drift_1T_70Ar_30CO2.json")).unwrap();
